@@ -49,3 +49,33 @@ fn c04_client_validate_response() {
     kani::cover!(h.id != expected && h.version == 1);
     kani::cover!(h.id == expected && h.version == 1 && h.ec == 4097);
 }
+
+// ------------------------------------------------------------------------
+// Model connections for the fleet retry-loop harnesses (kani/fleet.rs): a real
+// `Client` value over a never-used socket number, identified by its id counter.
+// One extra strong count is leaked so `ClientInner::drop` (socket shutdown and
+// close: syscalls) never runs inside the model; dropping a cached client then is
+// just the reference-count decrement.
+pub(crate) fn model_client(conn: u64) -> Client {
+    use std::os::fd::FromRawFd;
+    let stream = unsafe { TcpStream::from_raw_fd(1000) };
+    let c = Client {
+        inner: Arc::new(ClientInner {
+            writer: Mutex::new(BufWriter::with_capacity(1, stream)),
+            pending: Mutex::new(HashMap::new()),
+            next_id: AtomicU64::new(conn),
+        }),
+    };
+    std::mem::forget(c.clone());
+    c
+}
+
+pub(crate) fn model_client_conn(c: &Client) -> u64 {
+    c.inner.next_id.load(Ordering::Relaxed)
+}
+
+/// Stand-in for `<ClientInner as Drop>::drop` (socket shutdown + failing the
+/// pending callers through their mpsc channels): never executed in the model
+/// (see `model_client`), but its body must not be compiled in either -- Kani
+/// 0.68 aborts with an internal error on code reachable from it.
+pub(crate) fn client_inner_drop_stub(_this: &mut ClientInner) {}
